@@ -24,7 +24,7 @@ def declare(rep):
 
 
 def run_config(ctx, rep, cfg, F):
-    S.run_ops(ctx, rep, cfg, F, ["union"], RULES, "struct", 7000)
+    S.run_ops(ctx, rep, cfg, F, ["union"], RULES, "struct", 3000)
 
 
 def finalize(ctx, rep):
